@@ -31,7 +31,11 @@ RULE = (
     "directory digests"
 )
 
-NAMES = ["a", "ab", "b", "a1", "a_b", "ba", "x/a", "x/ab", "a/b", "y/z/a", "inbox", "in"]
+NAMES = [
+    "a", "ab", "b", "a1", "a_b", "ba", "x/a", "x/ab", "a/b", "y/z/a", "inbox", "in",
+    # dots and regex metacharacters in names, next to names they would match as patterns
+    "rel1.0/plan", "rel1-0/plan", "rel100/plan", "v1.2", "v1x2", "c++", "c", "a(b)", "ab)", "a$", "a|b", "a*",
+]  # fmt: skip
 LINK = re.compile(r"\[\[([^\]\[#\s]+)(#[^\]\[\s]*)?\]\]")
 
 
@@ -101,7 +105,7 @@ def gen_case(rng: random.Random, tier: str) -> dict:
             {
                 "op": "rename",
                 "src": rng.randrange(1000),
-                "dst": rng.choice(["n", "nb", "a", "b", "a2", "x/n", "x/a", "new/dir/n", "ab"]),
+                "dst": rng.choice(["n", "nb", "a", "b", "a2", "x/n", "x/a", "new/dir/n", "ab", "rel1.0/roadmap", "v2.0", "n+1", "x/n(1)"]),
                 "src_ext": rng.random() < 0.25,
                 "dst_ext": rng.random() < 0.25,
                 "back": rng.random() < 0.2,
@@ -116,11 +120,12 @@ def describe(case: dict) -> Any:
     return {"files": case["world"]["files"], "steps": case["steps"]}
 
 
-def expected_after_rename(files: dict[str, bytes], a: str, b: str) -> dict[str, bytes]:
-    """Reference model: move the key, retarget exactly the links named `a`."""
+def expected_after_rename(files: dict[str, bytes], a: str, b: str, a_file: Optional[str] = None, b_file: Optional[str] = None) -> dict[str, bytes]:
+    """Reference model: move the key, retarget exactly the links named `a` (a, b = link
+    names; a_file, b_file = the files, by default the .zo pages of those names)."""
     out = {}
-    a_file = a if "." in a.rsplit("/", 1)[-1] else a + ".zo"
-    b_file = b if "." in b.rsplit("/", 1)[-1] else b + ".zo"
+    a_file = a_file or a + ".zo"
+    b_file = b_file or b + ".zo"
     for rel, data in files.items():
         key = b_file if rel == a_file else rel
         if rel.endswith((".zo", ".zot", ".zoq")):
@@ -154,27 +159,33 @@ def execute(case: dict, scratch: str) -> dict:
         if not pages:
             continue
         others = ob.list_pages(sim.zdir, (".zot", ".zoq"))
+        # every rename as (link name A, link name B, file A, file B, argument A, argument B)
+        jobs: list[tuple[str, str, str, str, str, str]] = []
         if st.get("non_zo") and others and not (st.get("back") and prev):
             src_file = others[st["src"] % len(others)]
             ext = "." + src_file.rsplit(".", 1)[-1]
-            pairs = [(src_file, st["dst"] + ext)]  # link names of non-.zo files keep their extension
+            dst_file = st["dst"] + ext
+            # link names of non-.zo files keep their extension; so do the arguments
+            jobs.append((src_file, dst_file, src_file, dst_file, src_file, dst_file))
+            rec.probe("non-zo-file-renamed")
         else:
-            pairs = _pairs(st, pages, prev)
-        for a, b in pairs:
+            for a, b in _pairs(st, pages, prev):
+                # a name that contains a dot anywhere must be given with its .zo extension
+                # (zorg takes any dotted argument as already having one)
+                sa = a + ".zo" if (st.get("src_ext") or "." in a) else a
+                sb = b + ".zo" if (st.get("dst_ext") or "." in b) else b
+                jobs.append((a, b, a + ".zo", b + ".zo", sa, sb))
+                rec.probe("name-with-dot-or-regex-metacharacter", int(bool(re.search(r"[.+()$|*?^]", a))))
+        for a, b, a_file, b_file, sa, sb in jobs:
             before = ob.read_all_files(sim.zdir)
-            b_file = b if "." in b.rsplit("/", 1)[-1] else b + ".zo"
-            if b_file in before or a == b:
+            if b_file in before or a == b or a_file not in before:
                 continue
-            if "." in a.rsplit("/", 1)[-1]:
-                real = {"op": "rename", "src": a, "dst": b}
-                rec.probe("non-zo-file-renamed")
-            else:
-                real = {"op": "rename", "src": a + (".zo" if st.get("src_ext") else ""), "dst": b + (".zo" if st.get("dst_ext") else "")}
+            real = {"op": "rename", "src": sa, "dst": sb}
             o = sim.run(real)
             rec.proc(real, None, o, sim)
             after = ob.read_all_files(sim.zdir)
             if o.status != "ok":
-                if not os.path.isdir(os.path.dirname(os.path.join(sim.zdir, b))):
+                if not os.path.isdir(os.path.dirname(os.path.join(sim.zdir, b_file))):
                     rec.probe("rename-into-missing-directory-refused")
                     if after != before:
                         return rec.result(hist.viol("failed-rename-changed-files", "-", step=i, op=real))
@@ -182,7 +193,7 @@ def execute(case: dict, scratch: str) -> dict:
                 exc = o.exc or {}
                 return rec.result(hist.viol("rename-raised", f"{exc.get('type')}", step=i, op=real, msg=exc.get("msg")))
             rec.stats["evaluations"] += 1
-            want = expected_after_rename(before, a, b)
+            want = expected_after_rename(before, a, b, a_file, b_file)
             _probes(rec, before, want, a, prev)
             for rel in sorted(set(want) | set(after)):
                 if want.get(rel) != after.get(rel):
@@ -196,7 +207,7 @@ def execute(case: dict, scratch: str) -> dict:
 
 
 def _pairs(st: dict, pages: list[str], prev: Optional[tuple[str, str]]) -> list[tuple[str, str]]:
-    if st.get("back") and prev and "." not in prev[1].rsplit("/", 1)[-1] and prev[1] + ".zo" in pages:
+    if st.get("back") and prev and prev[1] + ".zo" in pages:
         return [(prev[1], prev[0])]
     a = pages[st["src"] % len(pages)][:-3]
     return [(a, st["dst"])]
